@@ -47,6 +47,7 @@ type c05Params struct {
 	prefix   int // acknowledged exchanges in both directions before exploration (wrap)
 	dupDelay bool
 	apps     int // concurrent application goroutines sharing the outbound telegrams (default 1)
+	ackFails int // socket writes of the client's acknowledgements that may fail (transient error)
 }
 
 func c05Run(p c05Params) func() {
@@ -118,6 +119,14 @@ func c05Run(p c05Params) func() {
 					}
 				})
 			}
+		}
+		failLeft := p.ackFails
+		sock.FailSend = func(v knxnet.ServicePackable) error {
+			if _, isAck := v.(*knxnet.TunnelRes); isAck && failLeft > 0 && !quietNet && mc.Choose(2, mc.Fault) == 1 {
+				failLeft--
+				return fakesock.ErrSockClosed
+			}
+			return nil
 		}
 		t, err := knx.NewTunnelOnSocket(sock, knxnet.TunnelLayerData, TCfg(p.R, p.T, 100000000))
 		if err != nil {
@@ -342,6 +351,8 @@ func init() {
 	register("both", &h.Scenario{Name: "C05-direct-T=R-F2-P1", Prop: "C05", P: 1, F: 2, D: 1, Run: c05Run(c), Check: c05Oracle(c)})
 	d := c05Params{R: 100, T: 150, out: 2, in: 2, dupDelay: true, prefix: 254}
 	register("both", &h.Scenario{Name: "C05-direct-wrap254-F2", Prop: "C05", P: 0, F: 2, D: -1, Run: c05Run(d), Check: c05Oracle(d)})
+	af := c05Params{R: 100, T: 250, out: 1, in: 3, ackFails: 2}
+	register("both", &h.Scenario{Name: "C05-direct-1out-3in-ack-write-fails-F3", Prop: "C05", P: 0, F: 3, D: -1, Run: c05Run(af), Check: c05Oracle(af)})
 	g := c05Params{R: 100, T: 150, out: 4, in: 1, apps: 2}
 	register("both", &h.Scenario{Name: "C05-direct-2apps-4out-1in-loss-F1-P2", Prop: "C05", P: 2, F: 1, D: 2, Run: c05Run(g), Check: c05Oracle(g)})
 	e := c05Params{R: 100, T: 350, out: 3, in: 3, dupDelay: true}
